@@ -842,10 +842,43 @@ class Interp:
         raise Unsupported(f"constant {c!r}")
 
     def e_Tuple(self, e, st):
-        return self.bind(self.eval_list(e.elts, st), lambda vs, s: self.val(s, TupleV(vs)))
+        def go(vs, s):
+            items = self._spread(e.elts, vs, s, e)
+            if items is None:
+                self.unsupported(e, "*iterable of unknown shape in a tuple display")
+            return self.val(s, TupleV(items))
+        return self.bind(self.eval_list(e.elts, st), go)
+
+    def _spread(self, elts, vs, s, node):
+        """Values of a list / tuple display with *iterable elements spliced in (None when one cannot be expanded)."""
+        out = []
+        for el, v in zip(elts, vs):
+            if isinstance(el, ast.Starred):
+                if isinstance(v, GenV):
+                    return None
+                items = self.iter_items(v, s, node)
+                if items is None:
+                    return None
+                out.extend(items)
+            else:
+                out.append(v)
+        return out
+
+    def e_Starred(self, e, st):
+        # (only inside a display or a call, where the enclosing node splices the value in)
+        def go(v, s):
+            if isinstance(v, GenV):
+                return self.consume(v, s, e)
+            return self.val(s, v)
+        return self.bind(self.eval(e.value, st), go)
 
     def e_List(self, e, st):
-        return self.bind(self.eval_list(e.elts, st), lambda vs, s: self.val(s, s.new_list(vs)))
+        def go(vs, s):
+            items = self._spread(e.elts, vs, s, e)
+            if items is None:
+                self.unsupported(e, "*iterable of unknown shape in a list display")
+            return self.val(s, s.new_list(items))
+        return self.bind(self.eval_list(e.elts, st), go)
 
     def e_Dict(self, e, st):
         keys = []
@@ -2778,6 +2811,13 @@ class LoopSpec:
             for w in carried[i + 1:]:
                 mk(f"{v} + {w} == const", lambda val, v=v, w=w: eq(val[v] + val[w], entry[v] + entry[w]))
                 mk(f"{v} - {w} == const", lambda val, v=v, w=w: eq(val[v] - val[w], entry[v] - entry[w]))
+        # a carried variable against the values the loop does not change (a position against the total, ...)
+        fixed = [(u, x.e) for u, x in st.env.items() if isinstance(x, IntV) and u not in modified
+                 and not u.startswith("__")][:8]
+        for v in carried:
+            for u, ue in fixed:
+                mk(f"{v} <= {u}", lambda val, v=v, ue=ue: le(val[v], ue))
+                mk(f"{v} >= {u}", lambda val, v=v, ue=ue: ge(val[v], ue))
         # candidates must hold at entry
         alive = [(d, fn) for d, fn in cands if entails(st.cons, fn(entry))]
         rounds = 0
